@@ -16,7 +16,8 @@ import schemawalk
 
 PROP = 'C03'
 COQ_TARGETS = ['theories/CodecFacts.vo', 'gen/Schemas.vo', 'theories/SchemaTables.vo']
-COQ_IMPORTS = 'From Bac Require Import Base Tag Schema Codec.\nFrom BacGen Require Import Schemas.'
+COQ_IMPORTS = ('From Bac Require Import Base.\nFrom Bac Require Import Tag.\nFrom Bac Require Import Schema.\n'
+               'From Bac Require Import Codec.\nFrom BacGen Require Import Schemas.')   # one library per line: much faster to load
 TABLE_OBLIGATIONS = ['C03_all_wf', 'C03_supported_or_listed', 'C03_registries_shape']
 RULE = ('cases: for each of the 58 registered PDUs and every Sequence/Choice class of apdu.py/basetypes.py (all, every run): presence '
         'patterns of its optional elements (all if <= 16 (quick) / 256 (thorough), else all-absent, all-present, each single one, '
@@ -716,7 +717,7 @@ def roundtrip_failure(name, tr):
     """None, or a failure dict: value -> octets -> value' (== value) -> octets' (== octets)"""
     from bacpypes.primitivedata import TagList
     from bacpypes.comm import PDUData
-    base = {'type': name, 'value': repr(strip(tr))[:3000], 'tree': tr}
+    base = {'type': name, 'value': repr(strip(tr))[:3000], 'tree': repr(tr), 'features': sorted(features(tr))}
     pdu = is_pdu(name)
     try:
         if pdu:
@@ -812,7 +813,6 @@ def direct(rng, tier, focus=()):
                 f = roundtrip_failure(name, tr)
                 per_type[name] = per_type.get(name, 0) + 1
                 if f:
-                    f.pop('tree', None)
                     failures.append(f)
         if len(samples) < 4 and name in ('ReadPropertyACK', 'WritePropertyRequest', 'IAmRequest', 'EventParameter'):
             tr = gen_bounded(name, rng)
@@ -831,10 +831,60 @@ def annexf_failures():
 
 
 # ------------------------------------------------------------------------------------------------
+def features(tr, acc=None):
+    """structural traits of a value that the recorded findings are predicates of"""
+    acc = set() if acc is None else acc
+    if tr is None:
+        return acc
+    k = tr[0]
+    if k == 'seq':
+        for f in tr[2]:
+            features(f, acc)
+    elif k == 'choice':
+        e = cdesc(tr[1])['elements'][tr[2]]
+        if e['ctx'] is None and e['type']['k'] not in ('atom',):
+            acc.add('unctx-constructed-alternative:%s.%s' % (tr[1], e['name']))
+        features(tr[3], acc)
+    elif k == 'list':
+        for x in tr[1]:
+            features(x, acc)
+    elif k == 'nv':
+        features(tr[2], acc)
+    return acc
+
+
 def classify(failure):
+    """id of the recorded finding that explains this failing input, else None (= new violation)"""
+    feats = failure.get('features', [])
+    # C03-K1: a Choice alternative that is constructed and not context tagged is encoded by Choice.encode
+    # but Choice.decode raises NotImplementedError when it reaches it
+    if failure.get('kind') == 'decode-refused' and failure.get('exc') == 'NotImplementedError' and \
+            any(f.startswith('unctx-constructed-alternative:') for f in feats):
+        return 'C03-K1'
     return None
 
 
 def replay(payload):
+    import ast
     f = payload.get('failure') or {}
-    print('replay', {k: v for k, v in f.items() if k != 'tree'})
+    print('replay of', {k: v for k, v in f.items() if k not in ('tree',)})
+    if f.get('tree') and f.get('type'):
+        tr = ast.literal_eval(f['tree'])
+        name = f['type']
+        print('implementation now:', {k: v for k, v in (roundtrip_failure(name, tr) or {'kind': 'round trip holds'}).items() if k != 'tree'})
+        import core
+        c = case_encode(name, tr)
+        got, err = core.coq_eval(COQ_IMPORTS, c.coq)
+        print('model encode     :', got if got is not None else err)
+        print('implementation   :', c.expected)
+        try:
+            tags = impl_encode_tags(name, tr)
+            d = case_decode_tags(name, tags)
+            got, err = core.coq_eval(COQ_IMPORTS, d.coq)
+            print('model decode     :', got if got is not None else err)
+            print('implementation   :', d.expected)
+        except Exception as e:
+            print('implementation encode raises', type(e).__name__)
+    for b in payload.get('broken', []):
+        if isinstance(b, dict) and b.get('minimal_case'):
+            print('disagreeing case:', b['minimal_case'])
